@@ -893,6 +893,8 @@ class SyncObj(object):
             newEntries = message.get('entries', [])
             serialized = message.get('serialized', None)
             self.__leaderCommitIndex = leaderCommitIndex = message['commit_index']
+            # Index of the last entry known to match the leader's log after this message
+            verifiedIdx = None
 
             # Regular append entries
             if 'prevLogIdx' in message:
@@ -952,15 +954,18 @@ class SyncObj(object):
                     nextNodeIdx = newEntries[-1][1] + 1
 
                 self.__sendNextNodeIdx(node, nextNodeIdx=nextNodeIdx, success=True)
+                verifiedIdx = nextNodeIdx - 1
 
             # Install snapshot
             elif serialized is not None:
                 if self.__serializer.setTransmissionData(serialized):
                     self.__loadDumpFile(clearJournal=True)
                     self.__sendNextNodeIdx(node, success=True)
+                    verifiedIdx = self.__getCurrentLogIndex()
 
-            if leaderCommitIndex > self.__raftCommitIndex:
-                self.__raftCommitIndex = min(leaderCommitIndex, self.__getCurrentLogIndex())
+            # Only the prefix verified against the leader's log may be committed
+            if verifiedIdx is not None and leaderCommitIndex > self.__raftCommitIndex:
+                self.__raftCommitIndex = max(self.__raftCommitIndex, min(leaderCommitIndex, verifiedIdx))
 
             self.__raftLog.setRaftCommitIndex(self.__raftCommitIndex)
 
